@@ -7,7 +7,7 @@ from vlib.core import *
 SPEC = os.path.join(VERIF, "specs", "Revocation")
 HARNESS = ["harness/db/c13_revocation_test.go"]
 PROPERTY_INVS = ("ReplicaExact", "NoSilentDrop", "RevokedUnfetchable", "NoSpuriousRevoke")
-CHUNK = 500           # behaviours per go test / TLC validation run
+CHUNK = 800           # behaviours per go test / TLC validation run
 STATE_KEYS = ("pr", "docs")
 
 MC_QUICK = ["MC_Revocation.cfg", "MC_Revocation_roles.cfg", "MC_Revocation_grants.cfg", "MC_Revocation_pages.cfg"]
@@ -34,21 +34,21 @@ def run(ctx):
         c.sort(key=lambda x: (len(x), json.dumps(x, sort_keys=True)))
         cands += [("cand", x) for x in c[:6 if q else 40]]
         rnd.shuffle(b)
-        nontriv += [("mc", x) for x in b[:110 if q else 1200]]
+        nontriv += [("mc", x) for x in b[:110 if q else 600]]
     ctx.cov["exhaustive"] = True
 
     # 2. more behaviours, generated concurrently: all action sequences of a tiny instance (seeded sample) and seeded TLC
     #    simulations of the full universe (SimNext: one successor per action kind)
     gen = parallel([
         lambda: export(ctx, "Beh_Revocation.cfg", "BEH", workers=2),
-        lambda: simulate(ctx, "Sim_Revocation.cfg", 40 if q else 600, 14),
-        lambda: simulate(ctx, "Sim2_Revocation.cfg", 60 if q else 900, 12),
+        lambda: simulate(ctx, "Sim_Revocation.cfg", 40 if q else 400, 14),
+        lambda: simulate(ctx, "Sim2_Revocation.cfg", 60 if q else 600, 12),
     ])
     small = gen[0]
     rnd.shuffle(small)
-    small = small[:60 if q else 800]
-    sim = pick_sim(gen[1], rnd, 100 if q else 1500)
-    sim2 = pick_sim(gen[2], rnd, 150 if q else 2000)
+    small = small[:60 if q else 400]
+    sim = pick_sim(gen[1], rnd, 100 if q else 1000)
+    sim2 = pick_sim(gen[2], rnd, 150 if q else 1200)
     jobs = [{"id": i, "kind": k, "steps": b} for i, (k, b) in enumerate(
         cands + nontriv + [("beh", b) for b in small] + [("sim", b) for b in sim] + [("sim2", b) for b in sim2])]
     for k in range(0, len(jobs), CHUNK):
